@@ -13,7 +13,7 @@ ASSUMPTIONS = [
 ]
 STUBS = ['SymStream (io.BytesIO)', 'SxPacker (struct.Struct)']
 OUTSIDE = ['symbol count recovery when no hash table exists (heuristic; the statement conditions on a hash table)', 'more than 3 dynamic symbols / 2 relocation entries per table',
-           'several PT_LOAD segments mapping the dynamic pointers (address_offsets itself is C02)']
+           'PT_LOAD layouts other than one segment / two segments adjacent in memory with the tables at the start of the second (address_offsets itself is C02)']
 
 DT = dict(NULL=0, NEEDED=1, PLTRELSZ=2, HASH=4, STRTAB=5, SYMTAB=6, RELA=7, RELASZ=8, RELAENT=9, STRSZ=10, SYMENT=11, SONAME=14, RPATH=15, REL=17, RELSZ=18, RELENT=19,
           PLTREL=20, JMPREL=23, RUNPATH=29, RELRSZ=35, RELR=36, RELRENT=37, GNU_HASH=0x6ffffef5, FLAGS_1=0x6ffffffb)
@@ -35,6 +35,12 @@ def _template(ctx, cfg):
     A = 32 if cls == 32 else 64
     V = ctx.uint('load_vaddr', 32 if cls == 64 else 18) * 0x1000           # page aligned load address (inside the class's address space)
     img = Image(cls, little, machine=62 if cls == 64 else 3, e_type=3)
+    split = cfg.get('layout') == 'split'
+    if split:
+        # two PT_LOAD segments adjacent in memory but not in the file: the first maps the file up to X, then come 24 bytes that are
+        # not loaded, and the second segment starts exactly with the dynamic string table, i.e. at the address one past the first
+        # segment's end (a pointer equal to p_vaddr + p_filesz of the FIRST segment belongs to the second)
+        X = img.blob([0x7a] * 23 + [0])
     stroff = img.blob(DYNSTR)
     k = len(SYMNAMES)
     symsz = L.sizeof('SYM', cls)
@@ -48,6 +54,7 @@ def _template(ctx, cfg):
     if cfg['hash'] in ('gnu', 'both'):
         # symoffset 1, one bucket, bloom all ones, chains: hashes with the end bit on the last
         gnuoff = img.blob(w(1) + w(1) + w(1) + w(0) + [0xff] * (cls // 8) + w(1) + w(0x1234 & ~1) + w(0x5678 | 1), align=8)
+    addr = (lambda o: V + X + (o - stroff)) if split else (lambda o: V + o)
     rela = cfg.get('rela', True)
     rname = 'RELA' if rela else 'REL'
     rsz = L.sizeof(rname, cls)
@@ -63,13 +70,13 @@ def _template(ctx, cfg):
     free_val = ctx.uint('free.val', A)
     ctx.assume(ctx.land(free_tag != 12, *[free_tag != t for t in DT.values()]))      # 12 = DT_INIT, queried as the absent table
     tags = [(DT['NEEDED'], sv[0]), (DT['NEEDED'], sv[1]), (DT['SONAME'], sv[2]), (DT['RPATH' if cfg.get('rpath', True) else 'RUNPATH'], sv[3]),
-            (DT['STRTAB'], V + stroff), (DT['STRSZ'], len(DYNSTR)), (DT['SYMTAB'], V + symoff), (DT['SYMENT'], symsz)]
+            (DT['STRTAB'], addr(stroff)), (DT['STRSZ'], len(DYNSTR)), (DT['SYMTAB'], addr(symoff)), (DT['SYMENT'], symsz)]
     if hashoff is not None:
-        tags.append((DT['HASH'], V + hashoff))
+        tags.append((DT['HASH'], addr(hashoff)))
     if gnuoff is not None:
-        tags.append((DT['GNU_HASH'], V + gnuoff))
-    tags += [(DT[rname], V + reloff), (DT[rname + 'SZ'], 2 * rsz), (DT[rname + 'ENT'], rsz),
-             (DT['JMPREL'], V + jmpoff), (DT['PLTRELSZ'], rsz), (DT['PLTREL'], DT[rname]), (free_tag, free_val), (DT['NULL'], 0)]
+        tags.append((DT['GNU_HASH'], addr(gnuoff)))
+    tags += [(DT[rname], addr(reloff)), (DT[rname + 'SZ'], 2 * rsz), (DT[rname + 'ENT'], rsz),
+             (DT['JMPREL'], addr(jmpoff)), (DT['PLTRELSZ'], rsz), (DT['PLTREL'], DT[rname]), (free_tag, free_val), (DT['NULL'], 0)]
     after_null = [(DT['NEEDED'], 1), (DT['NULL'], 0)]
     dynsz = L.sizeof('DYN', cls)
     dynoff = img.blob(sum([L.encode('DYN', cls, little, dict(d_tag=t, d_val=v)) for t, v in tags + after_null], []), align=8)
@@ -79,16 +86,20 @@ def _template(ctx, cfg):
         # the .dynamic section designates a second copy placed elsewhere
         secdyn_off = img.blob(sum([L.encode('DYN', cls, little, dict(d_tag=t, d_val=v)) for t, v in tags + after_null], []), align=8)
     total_guess = img.here() + 4096
-    img.segment(p_type=1, p_offset=0, p_vaddr=V, p_paddr=V, p_filesz=total_guess, p_memsz=total_guess, p_flags=5, p_align=0x1000)
-    img.segment(p_type=2, p_offset=dynoff, p_vaddr=V + dynoff, p_paddr=V + dynoff, p_filesz=dyn_filesz, p_memsz=dyn_filesz, p_flags=6, p_align=8)
+    if split:
+        img.segment(p_type=1, p_offset=0, p_vaddr=V, p_paddr=V, p_filesz=X, p_memsz=X, p_flags=5, p_align=0x1000)
+        img.segment(p_type=1, p_offset=stroff, p_vaddr=V + X, p_paddr=V + X, p_filesz=total_guess, p_memsz=total_guess, p_flags=6, p_align=0x1000)
+    else:
+        img.segment(p_type=1, p_offset=0, p_vaddr=V, p_paddr=V, p_filesz=total_guess, p_memsz=total_guess, p_flags=5, p_align=0x1000)
+    img.segment(p_type=2, p_offset=dynoff, p_vaddr=addr(dynoff), p_paddr=addr(dynoff), p_filesz=dyn_filesz, p_memsz=dyn_filesz, p_flags=6, p_align=8)
     if variant != 'stripped':
         img.section('', sh_type=0)
-        img.section('.dynstr', sh_type=3, sh_offset=stroff, sh_size=len(DYNSTR), sh_addr=V + stroff, sh_flags=2)                       # 1
-        img.section('.dynsym', sh_type=11, sh_offset=symoff, sh_size=k * symsz, sh_entsize=symsz, sh_link=1, sh_addr=V + symoff)     # 2
-        img.section('.dynamic', sh_type=6, sh_offset=secdyn_off, sh_size=dyn_filesz, sh_entsize=dynsz, sh_link=1, sh_addr=V + secdyn_off)  # 3
+        img.section('.dynstr', sh_type=3, sh_offset=stroff, sh_size=len(DYNSTR), sh_addr=addr(stroff), sh_flags=2)                       # 1
+        img.section('.dynsym', sh_type=11, sh_offset=symoff, sh_size=k * symsz, sh_entsize=symsz, sh_link=1, sh_addr=addr(symoff))     # 2
+        img.section('.dynamic', sh_type=6, sh_offset=secdyn_off, sh_size=dyn_filesz, sh_entsize=dynsz, sh_link=1, sh_addr=addr(secdyn_off))  # 3
         img.add_shstrtab()
     data = img.build()
-    exp = dict(tags=tags, sel=sel, svals=svals, rels=rels, jmp=jmp, rela=rela, k=k, free=(free_tag, free_val), V=V,
+    exp = dict(tags=tags, sel=sel, svals=svals, rels=rels, jmp=jmp, rela=rela, k=k, free=(free_tag, free_val), V=V, addr=addr,
                offs=dict(str=stroff, sym=symoff, rel=reloff, jmp=jmpoff, dyn=dynoff))
     return data, exp
 
@@ -138,7 +149,7 @@ def _check_dynamic(ctx, dyn, exp, label):
                 if exp['rela']:
                     ctx.check_eq(label + '/reloc/%s/r_addend' % key, g['r_addend'], w['r_addend'])
     ptr, off = dyn.get_table_offset('DT_SYMTAB')
-    ctx.check_eq(label + '/get_table_offset', [ptr, off], [exp['V'] + exp['offs']['sym'], exp['offs']['sym']])
+    ctx.check_eq(label + '/get_table_offset', [ptr, off], [exp['addr'](exp['offs']['sym']), exp['offs']['sym']])
     ctx.check_eq(label + '/get_table_offset/absent', dyn.get_table_offset('DT_INIT'), (None, None))
 
 
@@ -219,6 +230,8 @@ def _instances(tier):
             for hsh in ('sysv', 'gnu') + (('both',) if tier == 'thorough' else ()):
                 for symstr in ((0, 2) if tier == 'quick' else (0, 1, 2, 3)):
                     out.append(dict(elfclass=cls, little=little, variant=variant, hash=hsh, rela=(cls == 64), rpath=(hsh == 'sysv'), symstr=symstr))
+            # two PT_LOAD segments, the dynamic tables at the very start of the second one
+            out.append(dict(elfclass=cls, little=little, variant=variant, hash='gnu' if cls == 64 else 'sysv', rela=(cls == 64), rpath=True, symstr=1, layout='split'))
     return out
 
 
